@@ -1,6 +1,6 @@
 (* Correspondence runner for C14.  Codes: 0 ok, 1 impl <> model, 2 spec violated. *)
 From Coq Require Import List NArith ZArith Bool String.
-From GQL Require Export Visitor.VisitorTree Visitor.VisitorLoop.
+From GQL Require Export Visitor.VisitorTree Visitor.VisitorLoop Visitor.TypeInfo.
 From GQL Require Import Visitor.VisitorWalk Visitor.VisitorKeysSpec Gen.VisitorKeys.
 Import ListNotations.
 Open Scope N_scope.
@@ -41,8 +41,28 @@ Inductive c14case :=
 | ParCase (t : gnode) (subs : list (vopts * list (N * N))) (obs : list (list event))
           (result_nil : bool) (ast_same : bool)
     (* visitor.Visit(root, VisitInParallel(subs...), nil): what each sub-visitor received *)
-| KeysCase (keys : list (string * list string)) (shape : list (string * list (string * bool))).
+| KeysCase (keys : list (string * list string)) (shape : list (string * list (string * bool)))
     (* the live QueryDocumentKeys and ast struct shapes *)
+| TiCase (t : gnode) (sch : tschema) (attrs : list (N * nattr)) (o : vopts) (pol : list (N * N))
+         (obs : list (phase * N * tenv)).
+    (* visitor.Visit(doc, VisitWithTypeInfo(typeInfo, options), nil): what the TypeInfo reported
+       inside every callback of the sub-visitor *)
+
+(* observations identify a field definition by name and type, a directive by name, an
+   argument by name and type *)
+Definition tfield_eqb (a b : tfield) : bool := N.eqb (tf_name a) (tf_name b) && ty_eqb (tf_type a) (tf_type b).
+Definition tenv_eqb (a b : tenv) : bool :=
+  opt_eqb ty_eqb (te_type a) (te_type b) && opt_eqb N.eqb (te_parent a) (te_parent b)
+  && opt_eqb ty_eqb (te_input a) (te_input b) && opt_eqb tfield_eqb (te_fdef a) (te_fdef b)
+  && opt_eqb (fun x y => N.eqb (fst x) (fst y)) (te_dir a) (te_dir b)
+  && opt_eqb (fun x y => N.eqb (fst x) (fst y) && ty_eqb (snd x) (snd y)) (te_arg a) (te_arg b).
+Definition obs_eqb (a b : phase * N * tenv) : bool :=
+  phase_eqb (fst (fst a)) (fst (fst b)) && N.eqb (snd (fst a)) (snd (fst b)) && tenv_eqb (snd a) (snd b).
+
+Definition attr_of (attrs : list (N * nattr)) (id : N) : nattr :=
+  match assoc id attrs with Some a => a | None => no_attr end.
+Definition kind_of_tree (t : gnode) : N -> N :=
+  let tbl := kinds_of t in fun id => match assoc id tbl with Some k => k | None => 9999 end.
 
 Definition events_eqb := list_eqb event_eqb.
 
@@ -70,6 +90,18 @@ Definition check (c : c14case) : N :=
            if list_eqb events_eqb obs model && negb replaced && negb rebuilt then 0 else 1
          | OutOfFuel => 1
          end
+  | TiCase t sch attrs o pol obs =>
+    let sel := get_visit_fn o in
+    let p := pol_of pol in
+    let attr := attr_of attrs in
+    let kind_of := kind_of_tree t in
+    (* the traversal the VisitWithTypeInfo wrapper receives *)
+    let outer := walk_events keys_of par_sel (twi_pol sel p kind_of) t in
+    let spec := flat_map (fun e => match sel (e_kind e) (e_phase e) with
+                                   | Some _ => [(e_phase e, e_id e, types_at sch attr (chain_of kind_of e))]
+                                   | None => [] end) outer in
+    if negb (list_eqb obs_eqb obs spec) then 2
+    else if list_eqb obs_eqb obs (ti_run sch attr sel p ti_init outer) then 0 else 1
   | KeysCase keys shape =>
     if negb (keys_complete String.eqb exempt_names keys shape) then 2
     else if list_eqb (fun a b => String.eqb (fst a) (fst b) && list_eqb String.eqb (snd a) (snd b)) keys gen_keys_named
